@@ -283,9 +283,13 @@ class ClassicalDataDictionaryStore(ClassicalDataStore):
         return rep + ')'
 
     def _value_equality_values_(self):
+        # rows are tuples when recorded and lists when read from JSON (which has no tuples): compare them as tuples
+        def rows(d):
+            return {k: [tuple(r) for r in v] for k, v in d.items()}
+
         return (
-            self._records,
+            rows(self._records),
             self._channel_records,
             self._measurement_types,
-            self._measured_qubits,
+            rows(self._measured_qubits),
         )
